@@ -24,6 +24,7 @@ TRACE_FILES = ("channel.py", "task.py", "server.py", "trigger.py", "buffers.py",
 
 
 MAIN = "main-controller"
+_RUNS = 0
 
 
 class SimAbort(BaseException):
@@ -53,6 +54,7 @@ class SThread:
         self.real = None
         self.ident = None
         self.daemon = True
+        self.last_line = None
 
     def __repr__(self):
         return "<T%d %s %s%s>" % (self.idx, self.name, self.state, (":" + str(self.what)) if self.state == "blocked" else "")
@@ -116,6 +118,28 @@ class RandomSource(Source):
             return self.rnd.choice(sorted(others or options, key=lambda t: t.idx))
         if others and self.rnd.random() < self.p:
             return self.rnd.choice(sorted(others, key=lambda t: t.idx))
+        return cur
+
+
+class HotRandom(Source):
+    """random pre-emption concentrated at 'hot' yield kinds (the windows in which a syscall has been issued, a lock was
+    just released or the I/O loop is being woken), rare elsewhere; forced choices are random"""
+
+    HOT = ("sock.send", "sock.send.ret", "sock.recv", "lock.release", "trigger.pull", "trigger.pulled", "cond.notify", "sock.close",
+           "app.iter", "app.call", "client.read", "client.send")
+
+    def __init__(self, seed, p_hot=0.3, p_cold=0.01):
+        import random
+        self.rnd = random.Random(seed)
+        self.p_hot, self.p_cold = p_hot, p_cold
+
+    def choose(self, sched, cur, options, kind, yielding):
+        others = sorted([t for t in options if t is not cur], key=lambda t: t.idx)
+        if cur not in options or (yielding and others):
+            return self.rnd.choice(others or sorted(options, key=lambda t: t.idx))
+        p = self.p_hot if kind in self.HOT else self.p_cold
+        if others and self.rnd.random() < p:
+            return self.rnd.choice(others)
         return cur
 
 
@@ -259,7 +283,17 @@ class Scheduler:
 
     def _line(self, frame, event, arg):
         if event == "line" and not self.abort:
-            self.yield_point("line", None)
+            # CPython 3.12 may report the same line of the same frame twice (adaptive specialisation differs between
+            # the first and later executions): only a change of (frame, line) is a yield point, so runs are replayable
+            t = self.me()
+            key = (id(frame), frame.f_lineno)
+            if t is not None and t.last_line != key:
+                t.last_line = key
+                self.yield_point("line", None)
+        elif event == "return":
+            t = self.me()
+            if t is not None:
+                t.last_line = None
         return self._line
 
     # ---- enabledness
@@ -411,6 +445,15 @@ class Scheduler:
     # ---- controller side
     def run(self):
         """hand the baton to the sim threads until quiescence / overrun; returns the reason"""
+        import gc
+        if not getattr(self, "_gc_off", False):
+            # finalisers (e.g. wasyncore.file_wrapper.__del__) must not run traced code at arbitrary instants
+            global _RUNS
+            _RUNS += 1
+            if _RUNS % 100 == 1:
+                gc.collect()
+            gc.disable()
+            self._gc_off = True
         if self.current is not None:
             raise HarnessError("run() while a sim thread holds the baton")
         nxt = self._pick(None, "start", True)
@@ -427,6 +470,8 @@ class Scheduler:
         return self.reason
 
     def shutdown(self):
+        import gc
+        gc.enable()
         self.abort = True
         for t in self.threads:
             if t.state != "done":
